@@ -112,7 +112,7 @@ def main():
         os.makedirs(o, exist_ok=True)
         shutil.copy(os.path.join(d, "patch.diff" if n == 1 else "patch%d.diff" % n), os.path.join(o, "patch.diff"))
         suf = "" if n == 1 else str(n); demo = None
-        for cand in ("demo%s.c" % suf, "demo%s.cpp" % suf, "demo.c"):
+        for cand in ({("C10", 5): "demo4.c"}.get((prop, n), "demo%s.c" % suf), "demo%s.cpp" % suf, "demo.c"):
             if os.path.exists(os.path.join(d, cand)): demo = cand; break
         if demo: shutil.copy(os.path.join(d, demo), os.path.join(o, "demo" + os.path.splitext(demo)[1]))
         for h in glob.glob(os.path.join(d, "*.h")): shutil.copy(h, o)
